@@ -52,6 +52,21 @@ elif name=='M11_move_ctor_keeps_raw':
 			row.mFreeRaws = nullptr;''','''			row.mFreeRaws = nullptr;''')
 elif name=='M12_row_gets_private_head':
     sub(tab,'return RowProxy(&GetColumnList(), raw, &mCrew.GetFreeRaws());','static FreeRaws other(nullptr);\n\t\treturn RowProxy(&GetColumnList(), raw, &other);')
+elif name=='G1_link_points_to_itself':
+    sub(row,'MemCopyer::ToBuffer(headRaw, raw);','MemCopyer::ToBuffer(raw, raw);')
+elif name=='G2_drain_frees_only_first':
+    sub(tab,'''			mRawMemPool.Deallocate(headRaw);
+			headRaw = nextRaw;''','''			mRawMemPool.Deallocate(headRaw);
+			headRaw = (nextRaw == headRaw) ? nextRaw : nullptr;''')
+elif name=='G3_check_inverted':
+    sub(tab,'''		if (mCrew.GetFreeRaws() != nullptr)
+			pvDeallocateFreeRaws();
+		return mRawMemPool''','''		if (mCrew.GetFreeRaws() == nullptr)
+			pvDeallocateFreeRaws();
+		return mRawMemPool''')
+elif name=='T1_table_swap_keeps_crew':
+    sub(tab,'''		mCrew.Swap(table.mCrew);
+		mRaws.Swap(table.mRaws);''','''		mRaws.Swap(table.mRaws);''')
 elif name=='N1_extractraw_keeps_raw':
     sub(row,'''			Raw* raw = mRaw;
 			mRaw = nullptr;
